@@ -42,7 +42,7 @@ def main():
             subprocess.run(["rsync", "-a", "--exclude", ".git", "--exclude", "__pycache__", "/repo/", str(repo)], check=True)
             r = subprocess.run(["patch", "-p1", "-s", "-i", str(patch)], cwd=repo, capture_output=True, text=True)
             if r.returncode != 0:
-                results.append((patch.name, "PATCH-FAILED", r.stdout[-300:] + r.stderr[-300:]))
+                results.append((str(patch.relative_to(ROOT)) if str(patch).startswith(str(ROOT)) else patch.name, "PATCH-FAILED", r.stdout[-300:] + r.stderr[-300:]))
                 continue
             tests = ""
             if run_tests:
@@ -57,7 +57,7 @@ def main():
                 viol = [l for l in p.stdout.splitlines() if l.startswith("VIOLATION")]
                 mech = [l.split("mechanism=")[1].split(")")[0] for l in p.stdout.splitlines() if "mechanism=" in l]
                 ok = p.returncode == 1 and viol
-                results.append((patch.name, f"{prop}: {'CAUGHT' if ok else 'MISSED rc=%d' % p.returncode}{tests}",
+                results.append((str(patch.relative_to(ROOT)) if str(patch).startswith(str(ROOT)) else patch.name, f"{prop}: {'CAUGHT' if ok else 'MISSED rc=%d' % p.returncode}{tests}",
                                 ",".join(sorted(set(mech)))[:160]))
                 print(results[-1], flush=True)
         finally:
